@@ -596,3 +596,9 @@ func init() {
 		What:   "known finding C12-c2: the per-datagram relay step of a UDP association (real parseUDPAssociateDatagram: header -> address the datagram is sent to) has no user or policy parameter, so a datagram addressed to a loopback / unspecified / private IPv4 address is accepted for relay for every user",
 		Bounds: "IPv4 header, 2-byte payload", Outside: "the goroutines of RunUDPAssociateLoop (they call nothing between this step and WriteToUDP)"})
 }
+
+func init() {
+	reg("C12", HarnessDef{ID: "H12.2", Spec: HarnessSpec{Name: "vH_C12_egress_rules", Pkg: "pkg/socks5", LoopBound: 30, LoopBounds: map[string]int{"ReadAtLeast": 2}, TimeoutS: 240, Par: 4},
+		What:   "real FindAction / forwardToProxyAction / matchEgressRule with three rules over concrete, overlapping ranges (a /24 inside a /16 + another /24, then optionally '*') and SYMBOLIC actions (DIRECT / REJECT / PROXY), every IPv4 destination, a user with or without the permissions: local destinations are refused BEFORE any rule is consulted (a DIRECT or PROXY rule does not re-open them); otherwise the action is that of the FIRST matching rule, DIRECT if none matches",
+		Bounds: "3 rules, IPv4 destinations, CIDR literals parsed natively", Outside: "domain-suffix rules; proxy selection among several proxy names"})
+}
